@@ -6,7 +6,8 @@ EXPLANATION = 'Mixed. P: writer.write_simple.write_to_file is executed symbolica
 
 def p_parts():
     from ._append import p_append
-    return [p_append]
+    from ._validate import p_validate
+    return [p_append, p_validate]
 
 
 def run(ctx):
